@@ -103,6 +103,20 @@ CLAIMED = {
         note=('Trusted: Lean kernel; propext, Quot.sound, Classical.choice; MODELLED ASSUMPTION: schedule(), clear() and one loop iteration including the callback are atomic with respect to each other (all hold _spin_lock) - exercised for real by the cclear operation and the threaded mode, not proved about pthread spin locks; '
               'the clock never goes backwards; no tick overflow; std::priority_queue::top() = some element of minimal _t (ties arbitrary); the time of a run is the `now` sampled by the loop; harness/timer.cpp (reads _event_queue.size() through an explicit-instantiation accessor), harness/vclock.hpp; '
               'the threaded mode runs under ASan, not TSan. Zero-delay events (outside the 1-200 ms quantifier) are discarded without running (theorem + correspondence; the oracle does not judge them). A callback that calls schedule()/clear() on its own timer would self-deadlock on the spin lock (not exercised).')),
+    'C32': dict(
+        category='proof', design_ref='DESIGN.md section 7 C32',
+        technique='Lean 4 theorems (mutual structural induction over element trees for parse-after-print; potential-function argument for totality; scanner lemmas for the two reference patterns; induction over the lookup string for find) about a hand-written byte-level model of the XmlElement state machine, ParseAttrs, InplaceXlate and find, entity table / MaxDepth / regular expressions re-read from the source on every run + differential correspondence on XmlElement::Factory(std::istream&) under ASan/UBSan with extensions switched off',
+        text=('Kernel-checked: C32_parse_total (on EVERY byte string the model of the parser ends with a tree or one of the parse errors of the code; the fuel 2*length+8 of the structural recursion is never exhausted) and C32_inbounds (the read position never leaves the document); '
+              'C32_xlate_roundtrip (decoding undoes the escaping of & < > \" \' for every NUL-free string outside the double-decoding class) with C32_xlate_fixpoint (both replacement loops end because nothing is left to replace), C32_class_exact (the excluded class is exactly: contains &name;) and the witness theorem C32_finding_double_decoding; '
+              'C32_attrs_roundtrip (ParseAttrs reads back every printed attribute map ordered by key; names without white space and = \" \' \\, not starting with /, not the reserved docpath: C32_finding_docpath); '
+              'C32_parse_roundtrip (parse(print t) = t for EVERY well-formed element tree of any width and nesting up to MaxDepth = 128: same tags, attribute maps, text, child order) and C32_depth_limit; '
+              'C32_find_all (find-all = the elements matched by the path components, document order, attribute filter on the last component), C32_find_first (find-first = first element of find-all, no hypothesis), C32_find_root_based. '
+              'Correspondence: generated trees (depth 0..6, width 0..6, same-tag siblings, references in all written forms, comments, prolog, both quotes) with absolute / root-based / relative / degenerate lookups and GetAttr, chains around depth 128, InplaceXlate and ParseAttrs directly, '
+              'and a malformed stream (random bytes up to 4 KB, truncations, damaged and unclosed documents, depth 1300); the parsed tree must be the generator\'s tree and lookups are re-evaluated on the implementation\'s own tree by an independent recursive descent.'),
+        note=('Trusted: Lean kernel; propext, Quot.sound, Classical.choice; the hand-written model (tied by correspondence only); POSIX regexec modelled by scanners for the two reference patterns (pattern strings checked against the source on every run); std::map / std::multimap / std::set<.., by sequence> as sorted list / stable filter / document order; '
+              'std::istringstream get/peek/putback with eofbit/failbit as modelled; libstdc++ integer extraction saturating at INT_MAX; after a failed extraction the loop body sees the previous byte (formally indeterminate, observed); harness/xmlh.cpp; tools/*.py. '
+              'Hypotheses of the correspondence: flags = {noextensions} (no ${ENV}, !{cmd}, /* */), nocase off, default delimiter, no xi:include file readable. Memory safety of the real code on arbitrary bytes is observed under ASan/UBSan (330 quick / 16000 thorough malformed documents per run), not proved. '
+              'KNOWN FINDINGS (known_findings.json): double-decoding (&amp;lt; -> <); reserved-docpath (attribute docpath dropped). Observed, outside the printed form: a line end directly between tag name and attribute name joins them (<a\\nb="1"> has tag ab); CDATA sections are not recognised (the test is commented out in the source).')),
 }
 
 PENDING_REASON = 'not yet covered: the Lean model and correspondence harness for this property have not been built in this framework yet (see DESIGN.md section 7 for the plan); no other technique is substituted'
